@@ -82,19 +82,33 @@ def _compare(out, table, V, maxlen, pred, inp, fails):
 
 
 def run_single(case):
+    r = _run_single(case, None)
+    var_of = gram.shared_vars(case_rules(case))
+    if var_of is not None:
+        # duplicate rules that are equal BY VALUE (same weight), as with numeric weights
+        r2 = _run_single(case, var_of)
+        r["evals"] += r2["evals"]
+        r["fails"] += r2["fails"]
+        r["counters"]["executions"] += r2["counters"]["executions"]
+        r["counters"]["shared_weight_duplicates"] = 1
+    return r
+
+
+def _run_single(case, var_of):
     p = cfgp()
     rules = case_rules(case)
     V = case_terms(case)
-    table = enum_derivs(rules, "S", V, Poly.D)
-    inp0 = {"rules": case["rules"]}
+    table = enum_derivs(rules, "S", V, Poly.D, var_of=var_of)
+    inp0 = {"rules": case["rules"]} if var_of is None else {"rules": case["rules"], "duplicates_share_weight": True}
     fails = []
     evals = 0
     nx = 0
     maxlen = p["maxlen"] if len(V) <= 2 else 2
-    g0 = gram.build(rules, Poly, gram.poly_weights(len(rules)), V=V)
+    W0 = gram.poly_weights(len(rules)) if var_of is None else [Poly.var(v) for v in var_of]
+    g0 = gram.build(rules, Poly, W0, V=V)
     for name, _ in xforms.transformations(g0):
         # a fresh object per transformation: no cached state is shared between them
-        g = gram.build(rules, Poly, gram.poly_weights(len(rules)), V=V)
+        g = gram.build(rules, Poly, W0, V=V)
         thunk = dict(xforms.transformations(g))[name]
         try:
             out = thunk()
